@@ -311,3 +311,27 @@ def run(F, S, R, tier):
         if n < 6:
             R.bad("typestate/positioned-io/anchor-lost", "expected >=6 file read/write sites in ckb-freezer, found %d" % n, [])
     R.guard("typestate/positioned-io", positioned_io)
+
+    def torn_first_entry():
+        """F14 (fixed 08b5946): the index is refilled with the default entry whenever it is empty *after* a torn tail has been cut off;
+        testing emptiness on the raw file length leaves an index of 1..11 bytes (first write cut by a crash) truncated to zero and build() fails."""
+        oi = F.one("ckb_freezer", r"FreezerFilesBuilder::open_index$")
+        R.fn(oi)
+        fills = oi.calls_to(r"::write_all$")
+        tests = []
+        for h, site in K.decision_sites(oi):
+            if h[0] == "eq" and ("lit:0",) in (h[1], h[2]):
+                other = h[1] if h[2] == ("lit:0",) else h[2]
+                for (sw, tt, ft) in K.branch_targets(oi, site):
+                    side = tt if getattr(site, "op", "eq") == "eq" else ft
+                    if fills and any(c.bb in oi.reachable(side, avoid={ft if side == tt else tt}) for c in fills):
+                        tests.append((other, site))
+        R.sites += len(tests) + len(fills)
+        if not fills or not tests:
+            R.bad("order/index-align-before-fill/anchor-lost", "the `index is empty -> write the default entry` step of open_index was not found", [oi.where()])
+        elif all(any(oi.dominates(rb, site.bb) for rb in [i for i, blk in enumerate(oi.blocks) for st in blk["s"] if st[1].get("k") == "bin" and st[1]["op"] == "Rem"]) for _, site in tests):
+            R.ok("order/index-align-before-fill", "emptiness of the index is decided on its length after the torn tail was cut off", [tests[0][1].where()])
+        else:
+            R.bad("order/index-align-before-fill", "open_index decides `empty -> write the default entry` on the raw file length: an index of 1..11 bytes (first entry torn by a crash) "
+                  "is truncated to zero afterwards and never refilled, so the freezer cannot be opened again", [tests[0][1].where()])
+    R.guard("order/index-align-before-fill", torn_first_entry)
